@@ -342,6 +342,26 @@ def check_namespace(ctx, rule):
     fpa = p.get_function('__main__.parse_args')
     with ctx.obligation(rule, '__main__.parse_args', None, fpa.where) as ob:
         ob.evaluations += 1
+        # the argument vector is read when the command runs: a default value `argv=sys.argv[1:]` (evaluated once, at import)
+        # or a module-level copy freezes the vector the process was started with - options put into sys.argv afterwards
+        # (`--paranoia` forced by a launcher, an in-process caller) are ignored
+        mi_ = fpa.module
+        for fi_ in p.functions.values():
+            if fi_.module is not mi_:
+                continue
+            a_ = fi_.node.args
+            for d_ in list(a_.defaults) + [x for x in a_.kw_defaults if x is not None]:
+                if any(isinstance(n_, ast.Attribute) and n_.attr == 'argv' and isinstance(n_.value, ast.Name) and n_.value.id == 'sys'
+                       for n_ in ast.walk(d_)):
+                    ob.require(False, '%s takes its argument vector from a default value that reads sys.argv (%s): defaults are '
+                               'evaluated once at import, so what is in sys.argv when the command runs is ignored'
+                               % (fi_.qual[len(PKG) + 1:], ast.unparse(d_)), '%s:%d' % (mi_.relpath, d_.lineno))
+        for st_ in mi_.tree.body:
+            if isinstance(st_, (ast.Assign, ast.AnnAssign)) and st_.value is not None and any(
+                    isinstance(n_, ast.Attribute) and n_.attr == 'argv' and isinstance(n_.value, ast.Name) and n_.value.id == 'sys'
+                    for n_ in ast.walk(st_.value)):
+                ob.require(False, 'the CLI module copies sys.argv at import (%s): the vector the command later runs with is not the one '
+                           'it parses' % ast.unparse(st_)[:80], '%s:%d' % (mi_.relpath, st_.lineno))
         argname = fpa.params[0] if fpa.params else None
         rets = [n for n in ast.walk(fpa.node) if isinstance(n, ast.Return) and n.value is not None]
         if not rets:
